@@ -261,16 +261,18 @@ fn collision_positions(rng: &mut Rng, c: &Cfg, kind_sel: u64) -> Collide {
     let layers = c.opts().num_fri_layers(d);
     let mut depth = match kind_sel % 4 { 0 | 1 => 0, 2 => 1, _ => 2 };
     while depth > 0 && layers < depth + 1 { depth -= 1; }
-    let kind: &'static str = match (kind_sel % 4, depth) { (0, _) => "pos:collide-dup", (_, 0) => "pos:collide-0", (_, 1) => "pos:collide-1", _ => "pos:collide-2" };
+    // row length at that depth: domain / N^(depth+1); a domain smaller than the folding factor
+    // (no layer is ever built on it) has no cosets to collide in: only duplicates are possible
+    let mut row_len = d;
+    for _ in 0..=depth { row_len /= n; }
+    let dup_only = kind_sel % 4 == 0 || row_len == 0 || d / row_len.max(1) < 2;
+    let kind: &'static str = match (dup_only, depth) { (true, _) => "pos:collide-dup", (_, 0) => "pos:collide-0", (_, 1) => "pos:collide-1", _ => "pos:collide-2" };
     let a = rng.below(d as u64) as usize;
     let mut partners: Vec<usize> = vec![];
-    if kind_sel % 4 == 0 {
+    if dup_only {
         partners.push(a);
         if rng.chance(1, 3) { partners.push(a); }
     } else {
-        // row length at that depth: domain / N^(depth+1)
-        let mut row_len = d;
-        for _ in 0..=depth { row_len /= n; }
         let span = d / row_len; // N^(depth+1) residues
         let want = if depth == 0 { 1 + rng.below((n as u64 - 1).min(3)) as usize } else { 1 };
         let mut tries = 0;
